@@ -40,12 +40,34 @@ func c16Impl(in []int64) []int64 {
 	switch kind {
 	case 0: // setz.Bits
 		var s [2]setz.Bits
+		var fused []int64
 		held := [2]iter.Seq[uint]{s[0].All(), s[1].All()} // taken from the zero values
 		for i := 0; i+2 < len(ops); i += 3 {
 			c, t, a := ops[i], int(ops[i+1]&1), ops[i+2]
 			o := 1 - t
 			switch c {
 			case 0:
+				// Add(a) immediately followed by an unbounded Range on the same set, a beyond every member: in every other such
+				// pair the Add is made from INSIDE the Range callback, at the last member (a callback that edits the set it
+				// ranges over).  Range walks the live words, so the walk must go on to the new member, as Range after the
+				// Add does; the Range op that follows is answered with this walk.
+				if i+5 < len(ops) && ops[i+3] == 7 && int(ops[i+4]&1) == t && ops[i+5] == 0 && (i/3)%2 == 0 && s[t].Len() > 0 && !s[t].Contains(uint(a)) {
+					max := uint(0)
+					s[t].Range(func(v uint) bool { max = v; return true })
+					if uint(a) > max {
+						n0 := s[t].Len()
+						var l []int64
+						s[t].Range(func(v uint) bool {
+							l = append(l, int64(v))
+							if len(l) == n0 {
+								out = append(out, B(s[t].Add(uint(a))))
+							}
+							return len(l) < 1<<22
+						})
+						fused = l
+						break
+					}
+				}
 				out = append(out, B(s[t].Add(uint(a))))
 			case 1:
 				out = append(out, B(s[t].Remove(uint(a))))
@@ -65,6 +87,11 @@ func c16Impl(in []int64) []int64 {
 				}
 				out = append(out, PutList(l)...)
 			case 7:
+				if fused != nil {
+					out = append(out, PutList(fused)...)
+					fused = nil
+					break
+				}
 				var l []int64
 				s[t].Range(func(v uint) bool { l = append(l, int64(v)); return !(a > 0 && int64(len(l)) >= a) })
 				out = append(out, PutList(l)...)
@@ -309,6 +336,10 @@ func c16Gen(c *Ctx) {
 			in = append(in, code, tgt, a)
 			kinds[code] = true
 			t.C.Count("op", c16Names[code])
+			if code == 0 && kind == 0 && r.Intn(5) == 0 { // Add ... Range pairs (every other one runs the Add inside the Range callback)
+				in = append(in, 7, tgt, 0)
+				t.C.Count("op", "Add+Range pair")
+			}
 		}
 		in = append(in, 3, 0, 0, 6, 0, 0, 3, 1, 0, 6, 1, 0)
 		t.Try(fmt.Sprintf("random-kind%d", kind), in, nops >= 3 && len(kinds) >= 2)
